@@ -161,6 +161,15 @@ Definition wsz_blanket (kind : string) (n : N) : string :=
    else if String.eqb kind "bytes" then n
    else if String.eqb kind "vec_string"
         then wsz_vec (wsz_string (repeat 97 (N.to_nat n)) + wsz_string (repeat 98 (N.to_nat (n + 1))))
+   (* elements of different sizes *)
+   else if String.eqb kind "slice_string"
+        then wsz_slice (wsz_string (repeat 97 (N.to_nat n)) + wsz_string (repeat 98 (N.to_nat (n + 1)))
+                        + wsz_string (repeat 99 (N.to_nat (n + 5))))
+   else if String.eqb kind "arr_string"
+        then wsz_slice (wsz_string (repeat 97 (N.to_nat (n + 2))) + wsz_string (repeat 98 (N.to_nat n)))
+   else if String.eqb kind "arr_opt" then wsz_slice (wsz_opt (Some 8) + wsz_opt None + wsz_opt (Some 8))
+   else if String.eqb kind "vec_vec" then wsz_vec (wsz_vec (4 * n) + wsz_vec (4 * (n + 1)))
+   else if String.eqb kind "slice_vec" then wsz_slice (wsz_vec (8 * (n + 1)) + wsz_vec (8 * n))
    else 0)%N.
 
 Inductive k3_kind :=
